@@ -2,11 +2,13 @@
   Registry of oracle op handlers: (op prefix, handler). One line per domain.
 -/
 import Oracle.Avc
+import Oracle.Flv
 
 namespace Oracle
 
 def handlers : List (String × (String → List String → Option String)) := [
-  ("avc.", Oracle.Avc.handle)
+  ("avc.", Oracle.Avc.handle),
+  ("flv.", Oracle.Flv.handle)
 ]
 
 def dispatch (op : String) (args : List String) : Option String :=
